@@ -259,11 +259,13 @@ Lemma all_rules_all r : In r all_rules.
 Proof. destruct r; cbn; tauto. Qed.
 
 Theorem complete_rules doc :
-  unique_names doc = true -> ok_app_args_nonempty doc = true ->
+  unique_type_names doc = true -> builtins_not_redefined doc = true -> ok_app_args_nonempty doc = true ->
   (forall r, rule_ok r doc = true) -> check_doc doc = [].
 Proof.
-  intros Hu Hne HR.
-  apply check_doc_nil. intros d Hd. destruct d as [sd|t|dd|se|te]; cbn [check_def]; try reflexivity.
+  intros Ht Hb Hne HR.
+  assert (Hu : unique_names doc = true) by (apply unique_names_from; [exact Ht | exact (HR RDupDirective) | exact Hb]).
+  apply check_doc_nil_conv; [|apply nodup_str_NoDup; exact (HR RDupDirective)].
+  intros d Hd. destruct d as [sd|t|dd|se|te]; cbn [check_def]; try reflexivity.
   - eapply schema_complete; eassumption.
   - eapply typedef_complete; try eassumption. apply In_types_of. exact Hd.
   - unfold check_directive_def. apply In_directives_of in Hd.
@@ -272,9 +274,33 @@ Proof.
     eapply directive_def_rest_complete; eassumption.
 Qed.
 
+Lemma unique_names_parts doc : unique_names doc = true -> unique_type_names doc = true /\ builtins_not_redefined doc = true.
+Proof.
+  unfold unique_names, unique_type_names, builtins_not_redefined. rewrite andb_true_iff. intros [Ht Hd]. split; [exact Ht|].
+  apply nodup_str_NoDup in Hd.
+  assert (Hsub : forall (p : directivedef -> bool), NoDup (map (fun d => iname (dd_name d)) (filter p (directives_of doc)))).
+  { intros p. induction (directives_of doc) as [|a l IH]; [constructor|]. cbn [map filter] in *.
+    inversion Hd as [|? ? Hx Hl]; subst. destruct (p a); cbn [map]; [constructor; [|apply IH; exact Hl] | apply IH; exact Hl].
+    intros Hin. apply Hx. apply in_map_iff in Hin as [y [Hy Hyin]]. apply filter_In in Hyin as [Hyin _].
+    rewrite <- Hy. apply (in_map (fun d => iname (dd_name d))). exact Hyin. }
+  apply andb_true_iff. split; [apply nodup_str_NoDup; apply Hsub|].
+  apply forallb_forall. intros x Hx. apply negb_true_iff. apply not_true_iff_false. intros Hin. apply existsb_str_In in Hin.
+  (* x is a user definition and some built-in one has its name: two entries of the list with one name *)
+  unfold user_directives, builtin_directives in *. apply filter_In in Hx as [Hxin Hxu]. apply in_map_iff in Hin as [y [Hyn Hy]].
+  apply filter_In in Hy as [Hyin Hyb].
+  assert (Hne : x <> y) by (intros ->; rewrite Hyb in Hxu; discriminate).
+  clear - Hd Hxin Hyin Hyn Hne. induction (directives_of doc) as [|a l IH]; [contradiction|]. cbn [map] in Hd.
+  inversion Hd as [|? ? Ha Hl]; subst. destruct Hxin as [->|Hxin]; destruct Hyin as [->|Hyin].
+  - exact (Hne eq_refl).
+  - apply Ha. unfold dn in Hyn. rewrite <- Hyn. apply (in_map (fun d => iname (dd_name d))). exact Hyin.
+  - apply Ha. unfold dn in Hyn. rewrite Hyn. apply (in_map (fun d => iname (dd_name d))). exact Hxin.
+  - apply IH; assumption.
+Qed.
+
 Theorem complete doc : spec_valid doc = true -> check_doc doc = [].
 Proof.
   unfold spec_valid. rewrite !andb_true_iff. intros [[[[[[[[Hu Hrules] _] Hne] _] _] _] _] _].
+  destruct (unique_names_parts doc Hu) as [Ht Hb].
   apply complete_rules; try assumption.
   intros r. rewrite forallb_forall in Hrules. apply (Hrules r). apply all_rules_all.
 Qed.
